@@ -21,7 +21,7 @@ TRACE = os.path.join(SPEC, "Trace_Bf2Import.tla")
 TRACE_CFG = "CONSTANT PAGE = 65536\nINIT Init\nNEXT Next\n"
 
 ALL = dict(PAGE=4, DROP_FIRST_AFTER_GAP=False, SKIP_RETAINS_DATA=False, MaxF=3, MaxRuns=3, MaxPage=2, S_MaxSec=1,
-           S_Types=[52, 53, 57, 61, 64, 72, 112, 131, 132, 80], S_Sels=["none", "single", "multi", "bgm"],
+           S_Types=[52, 53, 57, 61, 64, 72, 112, 131, 132, 80], S_Sels=["none", "single", "multi", "bgm", "bgmneg", "bgmand"],
            S_Vers=["none", "star", "v"], S_Sifs=["none", "star", "ok", "bad"],
            S_Shapes=["one", "two", "straddle", "gap", "gapmid", "nz", "pagegap", "nonbase"], S_Crcs=["none", "pre", "post"],
            S_Reboots=[False, True], S_Upds=[True, False], S_Fws=["none", "rel", "dbg"], S_Creators=[False, True],
@@ -96,7 +96,7 @@ def mc_jobs(tier):
 
 
 # ------------------------------------------------------------------ fixed layouts (always exercised, whatever the seed)
-def fixed_imports():
+def fixed_imports(tier="quick"):
     out = []
 
     def sec(L, bt, spans):
@@ -150,6 +150,72 @@ def fixed_imports():
             L = B.Lines()
             out.append(([B.cmt("Bf3Update", "1"), B.item("grp", runs=B.to_runs(L, [(base[0], 0, 3), (ty, 0, 4)]))], L, True))
     out += fixed_flag_matrix() + fixed_names() + fixed_straddle()
+    for name, bt, ls in page_holes():
+        L = B.Lines()
+        its = [B.cmt("Bf3Update", "1"), B.ins("CHECK_FWVER", "*")]
+        # (a group that goes back to the base tag type would open a new section: such layouts are written as one group)
+        its += [B.item("grp", runs=g) for g in B.split_groups(None, B.to_runs(L, ls), "one" if "back" in name else "page")]
+        out.append((its + [B.ins("REBOOT")], L, True))
+    out += fixed_filters(tier)
+    return out
+
+
+def page_holes():
+    """(name, first tag type, lines): holes / jumps whose size is a multiple of 65536 (and one line more or less), i.e. the tag
+    type (page) changes while the 16-bit offsets run on -- flat addresses decide, a blob with such a hole is not convertible"""
+    out = []
+    for bt, ln, p in ((0x35, 250, 1000), (0x40, 200, 0x8000), (0x3D, 250, 64000), (0x39, 7, 21), (0x40, 128, 0x10000 - 128), (0x35, 3, 3)):
+        tail = 3 * ln + 1
+        first = B.image_from(bt, 0, p, ln)
+
+        def at(a):
+            return B.image_from(bt, a, a + tail, ln)
+        out.append(("control: contiguous", bt, first + at(p)))
+        out.append(("hole of exactly one page: (t, p) -> (t+1, p)", bt, first + at(0x10000 + p)))
+        out.append(("hole of one page minus one line", bt, first + at(0x10000 + p - ln)))
+        out.append(("hole of one page plus one line", bt, first + at(0x10000 + p + ln)))
+        out.append(("one line, then the hole", bt, first[:1] + at(0x10000 + first[0][2])))
+        if B.PAGES[bt] >= 3:
+            out.append(("hole of exactly two pages: (t, p) -> (t+2, p)", bt, first + at(0x20000 + p)))
+            out.append(("two holes of one page", bt, first + at(0x10000 + p) + B.image_from(bt, 0x20000 + p + tail, 0x20000 + p + 2 * tail, ln)))
+        out.append(("jump back by exactly one page", bt, first + at(0x10000 + p) + at(p + tail)))
+        out.append(("one page up, then back and contiguous with the first part", bt, first + at(0x10000 + p + tail) + at(p)))
+    for bt, ln in ((0x35, 250), (0x40, 128), (0x40, 249)):
+        page0 = B.image_from(bt, 0, 0x10000 + (-0x10000) % ln, ln)   # whole lines only: with ln = 249 / 250 the last one straddles
+        end0 = ((page0[-1][0] - bt) << 16) + page0[-1][1] + page0[-1][2]
+        if B.PAGES[bt] >= 3:
+            out.append(("a whole tag type missing", bt, page0 + B.image_from(bt, end0 + 0x10000, end0 + 0x10000 + 700, ln)))
+        out.append(("control: every page there", bt, page0 + B.image_from(bt, end0, end0 + 700, ln)))
+    return out
+
+
+def fixed_filters(tier):
+    """the importer special-cases three spellings of the BGM12X / BGM12X_DETUNED filter (PFID2FILTER_TO_HWCID_SPECIAL_CASES) and the
+    single-entry form `01 01 ..`: every filter of 1..3 entries over {B6, BE, 9B} x flag bits {00, 40, 80, C0} (both orders, unrelated
+    id mixed in), in a BGM section, another peripheral section and a main firmware; and count bytes that disagree with the entries.
+    The spec's HWCID rule and filter rendering / meaning are the judge."""
+    import itertools
+    out = []
+    ent = [(f, i) for i in (0xB6, 0xBE, 0x9B) for f in (0x00, 0x40, 0x80, 0xC0)]
+    bg = [e for e in ent if e[1] != 0x9B]
+
+    def add(bt, es, count=None):
+        L = B.Lines()
+        f = [1, len(es) if count is None else count] + [b for fl, i in es for b in (fl, i)]
+        out.append(([B.cmt("Bf3Update", "1"), B.ins("SELECT", bytes_=f), B.item("grp", runs=B.to_runs(L, [(bt, 0, 4)]))], L, True))
+    for n in (1, 2):
+        for es in itertools.product(ent, repeat=n):
+            for bt in (0x39, 0x35, 0x84):
+                add(bt, es)
+    th = tier == "thorough"
+    for es in itertools.product(ent, repeat=3):
+        unrelated = [e for e in es if e[1] == 0x9B]
+        if th or not unrelated or (len(unrelated) == 1 and unrelated[0][0] in (0x00, 0xC0)):
+            for bt in ((0x39, 0x35, 0x84) if th else (0x39,)):
+                add(bt, es)
+    for es in itertools.product(bg, repeat=2):
+        for count in (0, 1, 3):
+            add(0x39, es, count)
     return out
 
 
@@ -278,6 +344,9 @@ def fixed_directs():
                   [(0xFF06, 251), (0x10001, 6)], [(0xFFFF, 3), (0x1FFFD, 7), (0x20004, 3)]):
         L = B.Lines()
         out.append((L, B.to_runs(L, [(0x84 + (a >> 16), a & 0xFFFF, n) for a, n in spans])))
+    for _name, bt, ls in page_holes():                   # holes / jumps of a multiple of 65536 bytes: unpack and all three formats
+        L = B.Lines()
+        out.append((L, B.to_runs(L, ls)))
     for bt, ln, size in STRADDLE:
         lines = B.const_image(bt, size, ln)
         k = [j for j, l in enumerate(lines) if l[1] + l[2] > 0x10000][0]
@@ -316,7 +385,7 @@ def run(tier):
 
         # ---------------- C->S: real code on generated layouts
         evs, tid = [], 0
-        cases = fixed_imports()
+        cases = fixed_imports(tier)
         n_imp = 16000 if th else 600
         for _ in range(n_imp):
             cases.append(B.gen_file(r, tier))
